@@ -40,6 +40,10 @@ Round 3:
 * a formula used alone and as a part of bigger formulas, in any order (`Expression.set_central_controller`): every formula
   always reports the configurations of its own catalogs (model: `central` of the formula alone, theorem embedded_formula;
   known finding FC16f on the unchanged tree);
+* several formulas written with the same catalog objects (each its own CentralController, shared publicly mutable
+  Controller objects): interleaved selections (the same configuration asked again), select_expression, operators, direct
+  set_index / set_name / modify_controller / reset_selection, reads; observed without touching any CentralController
+  (model `Cat.runM`, theorem select_after_any_history);
 * the signature text the calculator hands to the engine for a configured formula is run by the PROVED engine
   model (lib/leanrun.py, theorems C01.engine_reads_text / engine_correct) and must give the integer value of the
   hand-written formula: the C++ engine is no longer trusted for these.
@@ -77,13 +81,17 @@ MANIFEST = dict(
     'rename_elementary / fix_betas / change_init_values handed to the selected member commute with selection, leave the space of configurations and the '
     'members that are not selected untouched (delegated_rewrite_commutes / _equals_handwritten / _local); the space of a formula is a function of the '
     'formula alone, and inside a bigger formula its controllers are controllers of the bigger one, every valid configuration of the bigger one restricts to '
-    'a valid configuration of the part, with the same hand-written form (embedded_formula / embedded_operands). '
+    'a valid configuration of the part, with the same hand-written form (embedded_formula / embedded_operands); with several formulas (several central '
+    'controllers) on shared controller objects, after any history of selections on any of them, select_expression, operator calls and direct set_index / '
+    'set_name / modify_controller on the controllers, configure_catalogs(A) makes the formula show A (current configuration, every catalog, hand-written '
+    'form) and leaves the controllers of other formulas only untouched (select_after_any_history / select_touches_own_controllers_only). '
     'Tie: correspondence on real Catalog/Controller/Configuration objects, '
     'engine evaluation of configured vs hand-written formulas, decoded signatures, operator histories with recorded random choices, population '
     'histories (operator applied to a configuration that is not the one the expression shows); spaces up to the cap enumerated completely; '
     'construction stream with declared controllers and both constructors; iteration over chosen sets; real estimate_catalog runs against hand-written '
     'estimations; rewriting through catalogs; signature texts of configured formulas run by the proved engine model (leanrun); scripts using a formula '
-    'alone and as a part of one or two bigger formulas in any order.',
+    'alone and as a part of one or two bigger formulas in any order; scripts over 2-3 formulas built on the same catalog objects (repeated selections, '
+    'direct mutations of the Controller objects, reads), the state observed through the Controller / Catalog objects only.',
     design='DESIGN.md §5 C16',
     technique='Lean 4 theorems over an executable state-machine model + differential correspondence with the real catalog machinery and the real engine',
     note='Known finding FC16f (open): Expression.set_central_controller hands the central controller of an enclosing formula to the formulas it contains, '
@@ -2152,6 +2160,237 @@ def check_embedding(ctx, res, n):
 
         ctx.batch.add_many(reqs, cb)
 
+
+# --------------------------------------------------------------------------- several formulas on the same catalogs
+#
+# The state of a selection lives in the Controller objects, which are shared by every formula written with the same
+# catalog objects (each formula has its own CentralController) and are publicly mutable.  Scripts interleave
+# selections on several formulas (the same configuration asked again later on the same formula is frequent), direct
+# mutations of the Controller objects (set_index / set_name / modify_controller / reset_selection), select_expression
+# and operator calls.  Oracle (from the property statement; the expected state is tracked by the harness): after
+# every selection the catalogs of the formula show the alternatives selected and the formula evaluates like its
+# hand-written form; after every operation every formula shows the state of its controllers; a read
+# (current_configuration) returns it.  The state is observed through the Controller / Catalog objects only, never
+# through a CentralController, so that observing does not refresh anything a CentralController may remember.
+# Model: Cat.runM, theorem select_after_any_history.
+
+W_SHARED = 'CentralController.set_configuration / set_controller: formulas and direct mutations sharing Controller objects'
+
+
+def shared_formulas(case):
+    """abstract formulas of the case: the whole expression, then one formula per list of catalog indices"""
+    nodes = all_cat_nodes(case['expr'], [])
+    out = [case['expr']]
+    for idxs in case['formulas']:
+        g = {'k': 'num', 'v': 0}
+        for k, i in enumerate(idxs):
+            g = {'k': 'bin', 'op': 'plus', 'a': g, 'b': {'k': 'bin', 'op': 'times', 'a': nodes[i], 'b': {'k': 'num', 'v': k + 1}}}
+        out.append(g)
+    return out, nodes
+
+
+def gen_shared_case(rng):
+    base = gen_case(rng)
+    nodes = all_cat_nodes(base['expr'], [])
+    decl = base.get('decl')
+    formulas = [sorted(rng.sample(range(len(nodes)), rng.randint(1, min(3, len(nodes))))) for _ in range(rng.choice([1, 1, 2]))]
+    case = {'shape': 'shared', 'expr': base['expr'], 'betas': base['betas'], 'rows': base['rows'][:2], 'formulas': formulas}
+    if decl:
+        case['decl'] = decl
+    abstract, _ = shared_formulas(case)
+    spaces = [walk_ctrls(a, {}, decl) for a in abstract]
+    allc = spaces[0]
+    last = {}
+    script = []
+    for _ in range(rng.randint(8, 18)):
+        r = rng.random()
+        f = rng.randrange(len(abstract))
+        ctrls = spaces[f]
+        names = sorted(ctrls)
+        if r < 0.45:
+            if f in last and rng.random() < 0.55:
+                cfg = last[f]  # the same configuration asked again on the same formula
+            else:
+                cfg = {n: rng.choice(ctrls[n]) for n in names}
+            last[f] = cfg
+            script.append({'e': 'select', 'f': f, 'id': cfg_id(cfg), 'via': rng.choice(['expression', 'central', 'central_id'])})
+        elif r < 0.7:
+            n = rng.choice(sorted(allc))
+            how = rng.choice(['index', 'name', 'modify', 'reset'])
+            ev = {'e': how, 'name': n}
+            if how == 'index':
+                ev['index'] = rng.randrange(len(allc[n]))
+            elif how == 'name':
+                ev['v'] = rng.choice(allc[n])
+            elif how == 'modify':
+                ev.update(step=rng.choice([1, -1, 2, -3, rng.randint(-9, 9)]), circular=rng.random() < 0.5)
+            script.append(ev)
+        elif r < 0.8:
+            n = rng.choice(names)
+            script.append({'e': 'setctrl', 'f': f, 'name': n, 'index': rng.randrange(len(ctrls[n])), 'via': rng.choice(['expression', 'central'])})
+        elif r < 0.9:
+            table = op_table(names)
+            det = [k for k in table if table[k][0] != 'several']
+            cfg = last[f] if f in last and rng.random() < 0.5 else {n: rng.choice(ctrls[n]) for n in names}
+            script.append({'e': 'apply', 'f': f, 'key': rng.choice(det), 'id': cfg_id(cfg), 'step': rng.choice([1, 1, 2, -1, 0, 3, -7])})
+        else:
+            script.append({'e': 'read', 'f': f})
+    case['script'] = script
+    return case
+
+
+def run_shared(res, case, report=True):
+    """execute the script on real objects; returns (spaces, [views after each operation sent to the model], operations for the model)"""
+    L = lib()
+    decl = case.get('decl')
+    abstract, nodes = shared_formulas(case)
+    keep = {}
+    f0, cats = build_real(case, keep=keep)
+    reals = [f0]
+    for idxs in case['formulas']:
+        g = L.ex.Numeric(0)
+        for k, i in enumerate(idxs):
+            g = g + keep[id(nodes[i])] * (k + 1)
+        reals.append(g)
+    spaces = [walk_ctrls(a, {}, decl) for a in abstract]
+    allc = spaces[0]
+    ctrl_obj = {}
+    for node, cat in cats:
+        ctrl_obj.setdefault(node['ctrl'], cat.controlled_by)
+    inside = [{id(nd) for nd in all_cat_nodes(a, [])} for a in abstract]
+    db_ = database(case)
+    idx = {n: 0 for n in allc}  # expected index of every controller
+    mk = lambda sid: L.Configuration([L.SelectionTuple(n, s_) for n, s_ in id_cfg(sid).items()])  # noqa: E731
+    lean_ops, views = [], []
+    done = []
+
+    def bad(what, observed, expected):
+        if report:
+            res.violate(what, {**case, 'script': done + [ev]}, observed, expected, where=W_SHARED)
+
+    def view(f):
+        return cfg_id({n: ctrl_obj[n].current_name() for n in spaces[f]})
+
+    def expected_view(f):
+        return cfg_id({n: allc[n][idx[n]] for n in spaces[f]})
+
+    for ev in case['script']:
+        kind = ev['e']
+        f = ev.get('f')
+        if kind == 'select':
+            c = mk(ev['id'])
+            if ev['via'] == 'expression':
+                reals[f].configure_catalogs(c)
+            elif ev['via'] == 'central':
+                reals[f].set_central_controller() if reals[f].central_controller is None else None
+                reals[f].central_controller.set_configuration(c)
+            else:
+                reals[f].set_central_controller() if reals[f].central_controller is None else None
+                reals[f].central_controller.set_configuration_from_id(ev['id'])
+            cfg = id_cfg(ev['id'])
+            for n, v in cfg.items():
+                idx[n] = allc[n].index(v)
+            shown = {nd['name']: cat.selected_name() for nd, cat in cats if id(nd) in inside[f]}
+            want = {nd['name']: cfg[nd['ctrl']] for nd, cat in cats if id(nd) in inside[f]}
+            if shown != want:
+                bad(f'after formula {f} is configured as {ev["id"]!r} (operations before: {[d["e"] for d in done]}) its catalogs show other alternatives',
+                    shown, want)
+                break
+            reals[f].set_id_manager(None)
+            got = [float(v) for v in reals[f].get_value_c(database=db_, prepare_ids=True)]
+            reals[f].set_id_manager(None)
+            val = [float(hand_int(abstract[f], cfg, case['betas'], r)) for r in case['rows']]
+            if got != val:
+                bad(f'after formula {f} is configured as {ev["id"]!r} it does not evaluate like the formula written out by hand', got, val)
+                break
+            lean_ops.append({'e': 'select', 'f': f, 'id': ev['id']})
+        elif kind == 'setctrl':
+            if ev['via'] == 'expression':
+                reals[f].select_expression(ev['name'], ev['index'])
+            else:
+                reals[f].set_central_controller() if reals[f].central_controller is None else None
+                reals[f].central_controller.set_controller(ev['name'], ev['index'])
+            idx[ev['name']] = ev['index']
+            lean_ops.append({'e': 'setctrl', 'f': f, 'name': ev['name'], 'index': ev['index']})
+        elif kind == 'apply':
+            reals[f].set_central_controller() if reals[f].central_controller is None else None
+            ops = reals[f].central_controller.prepare_operators()
+            new, _ret = ops[ev['key']](mk(ev['id']), ev['step'])
+            d = op_table(sorted(spaces[f]))[ev['key']]
+            step = ev['step']
+            mv = [(d[1], step)] if d[0] == 'inc' else [(d[1], -step)] if d[0] == 'dec' else \
+                [(d[1], step if d[3][1] == 'E' else -step), (d[2], step if d[3][0] == 'N' else -step)]
+            want = moved(spaces[f], id_cfg(ev['id']), mv)
+            if new.get_string_id() != cfg_id(want):
+                bad(f'operator {ev["key"]!r} of formula {f} with step {step} given {ev["id"]!r} does not return the neighbour of the configuration it is given',
+                    new.get_string_id(), cfg_id(want))
+                break
+            for n, v in want.items():
+                idx[n] = allc[n].index(v)
+            lean_ops.append({'e': 'apply', 'f': f, 'key': ev['key'], 'id': ev['id'], 'step': step, 'choices': []})
+        elif kind == 'read':
+            now = reals[f].current_configuration().get_string_id()
+            if now != expected_view(f):
+                bad(f'current_configuration of formula {f} is not the state of its controllers', now, expected_view(f))
+                break
+            done.append(ev)
+            res.tally('shared:read')
+            continue
+        else:
+            c_ = ctrl_obj[ev['name']]
+            size = len(allc[ev['name']])
+            if kind == 'index':
+                c_.set_index(ev['index'])
+                idx[ev['name']] = ev['index']
+                lean_ops.append({'e': 'index', 'name': ev['name'], 'specs': allc[ev['name']], 'index': ev['index']})
+            elif kind == 'reset':
+                c_.reset_selection()
+                idx[ev['name']] = 0
+                lean_ops.append({'e': 'index', 'name': ev['name'], 'specs': allc[ev['name']], 'index': 0})
+            elif kind == 'name':
+                c_.set_name(ev['v'])
+                idx[ev['name']] = allc[ev['name']].index(ev['v'])
+                lean_ops.append({'e': 'name', 'name': ev['name'], 'specs': allc[ev['name']], 'v': ev['v']})
+            else:
+                c_.modify_controller(step=ev['step'], circular=ev['circular'])
+                new_i = idx[ev['name']] + ev['step']
+                idx[ev['name']] = new_i % size if ev['circular'] else min(max(new_i, 0), size - 1)
+                lean_ops.append({'e': 'modify', 'name': ev['name'], 'specs': allc[ev['name']], 'step': ev['step'], 'circular': ev['circular']})
+        res.tally('shared:' + kind)
+        now = [view(k) for k in range(len(reals))]
+        views.append(now)
+        want_views = [expected_view(k) for k in range(len(reals))]
+        if now != want_views:
+            bad(f'after {kind} the controllers of the formulas do not show the expected state', now, want_views)
+            break
+        done.append(ev)
+    return abstract, views, lean_ops
+
+
+def check_shared(ctx, res, n):
+    for _ in range(n):
+        case = gen_shared_case(ctx.rng)
+        res.count(case, nontrivial=True)
+        res.tally('shared:formulas=' + str(1 + len(case['formulas'])))
+        try:
+            abstract, views, lean_ops = run_shared(res, case)
+        except Exception as e:  # noqa: BLE001
+            import traceback
+
+            tb = traceback.extract_tb(e.__traceback__)
+            site = next((f'{f.filename.split("/")[-1]}:{f.lineno} {f.name}' for f in reversed(tb) if '/biogeme/' in f.filename), '')
+            res.violate(f'the real code raises {type(e).__name__}: {str(e)[:200]} while several formulas on the same catalogs are used in turn', case,
+                        f'{core.exc_kind(e)} at {site}', 'no error', where=W_SHARED)
+            continue
+
+        def cb(a, case=case, views=views):
+            tr = a.get('trace')
+            if tr is None or tr[:len(views)] != views:
+                res.diverge('configurations shown by several formulas on the same catalogs after each operation', case, tr, views, where=W_SHARED)
+            res.traces_validated += 1
+
+        ctx.batch.add({'op': 'multi', 'formulas': [lean_expr(a) for a in abstract], 'ops': lean_ops}, cb)
+
 # --------------------------------------------------------------------------- known-finding shapes (oracle only)
 
 FINDING_CASES = [
@@ -2376,6 +2615,7 @@ def check(ctx) -> Result:
     check_construction(ctx, res, ctx.n(45, 500))
     check_estimate(ctx, res, ctx.n(3, 30))
     check_embedding(ctx, res, ctx.n(40, 400))
+    check_shared(ctx, res, ctx.n(80, 700))
     ctx.batch.flush()
     flush_leanrun(res)
     return res
@@ -2398,6 +2638,16 @@ def search(ctx, res, broken):
     r2 = Result()
     for _ in range(300):
         oracle_construct(r2, gen_build_case(rng))
+        if r2.violations:
+            res.violations.extend(r2.violations[:1])
+            return
+    for _ in range(300):
+        c = gen_shared_case(rng)
+        try:
+            run_shared(r2, c)
+        except Exception as e:  # noqa: BLE001
+            r2.violate(f'the real code raises {type(e).__name__}: {e} while several formulas on the same catalogs are used in turn', c, str(e), 'no error',
+                       where=W_SHARED)
         if r2.violations:
             res.violations.extend(r2.violations[:1])
             return
@@ -2433,6 +2683,8 @@ def replay(ctx, obj):
             oracle_root(r, case)
         elif case.get('shape') == 'construct':
             oracle_construct(r, case)
+        elif case.get('shape') == 'shared':
+            run_shared(r, case)
         elif case.get('shape') == 'embedded':
             run_embedding(r, {k: v for k, v in case.items() if k not in ('step', 'formula')})
         elif case.get('shape') == 'estimate':
